@@ -6,7 +6,7 @@ package c05
 // live in a synctest bubble: this level runs in real time and is therefore restricted to confirmable requests whose
 // handler answers at once — every injected copy is answered by exactly one datagram, which is waited for.
 //
-//	own <getmid> udpsrv | recv con <mid> <tokhex> <pb|pbe|none|empty> | newconn | tick
+//	own <getmid> udpsrv | recv con <mid> <tokhex> <beh>[.<code>] | par <k> con <mid> <tokhex> <beh>[.<code>] | newconn | tick
 //	  | mrecv non <mid> <tokhex> <pb|pbe> | other <lo|if>
 //
 // mrecv: a MULTICAST copy of a non-confirmable request (the server has joined group 224.0.1.187 on the first multicast
@@ -121,6 +121,34 @@ func runUDPServerScenario(line string) string {
 				continue
 			}
 			got = append(got, append([]byte(nil), buf[:n]...))
+		case "par":
+			// a burst of k copies from the peer's socket, then the k replies
+			k, _ := strconv.Atoi(f[1])
+			if f[2] != "con" || k < 1 {
+				segs = append(segs, "bad-op")
+				continue
+			}
+			mid, _ := strconv.ParseInt(f[3], 10, 32)
+			tok, _ := lp.ParseHex(f[4])
+			dg := buildReq(parseType("con"), int32(mid), tok, f[5])
+			for i := 0; i < k; i++ {
+				_, _ = peer.Write(dg)
+			}
+			bad := false
+			for i := 0; i < k; i++ {
+				buf := make([]byte, 2048)
+				_ = peer.SetReadDeadline(time.Now().Add(3 * time.Second))
+				n, err := peer.Read(buf)
+				if err != nil {
+					bad = true
+					break
+				}
+				got = append(got, append([]byte(nil), buf[:n]...))
+			}
+			if bad {
+				segs = append(segs, "no-reply")
+				continue
+			}
 		case "mrecv":
 			if f[1] != "non" || mp == nil {
 				segs = append(segs, "bad-op")
@@ -230,6 +258,7 @@ func TestC05UDPServer(t *testing.T) {
 			}
 		}()
 		fmt.Fprintln(w, runUDPServerScenario(strings.Join(f, " ")))
+		_ = w.Flush()
 	})
 	if err != nil {
 		t.Fatal(err)
